@@ -183,11 +183,21 @@ __CPROVER_requires(!(0 <= g_i && g_i < SZ) || (v_a == HI32(item[g_i]) && v_dat =
 __CPROVER_requires(!(0 <= g_g && g_g < NM) || v_key == key[g_g])
 __CPROVER_assigns(gp_key, __CPROVER_object_whole(item), __CPROVER_object_whole(key), *themax, *thesize, *thenum, *firstfree, *delta)
 __CPROVER_frees(item, key)
+#ifndef NO_E1
 ENSURES(*delta == (long)RET - (long)item)
+#endif
+#ifndef NO_E2
 ENSURES(TM == NEWMAX && SZ == g_s0 && NM == g_n0 && FF == MAPEND(g_f0) && BLOCKS_OK)
+#endif
+#ifndef NO_E3
 ENSURES(!(0 <= g_i && g_i < g_s0) || (LO32(RET[g_i]) == v_dat && HI32(RET[g_i]) == MAPEND(v_a)))
+#endif
+#ifndef NO_E4
 ENSURES(!(0 <= g_g && g_g < g_n0) || gp_key[g_g] == v_key)
+#endif
+#ifndef NO_E5
 ENSURES(inv_ghosts(RET, gp_key, rank, TM, SZ, NM, FF, g_g, g_i, g_j))
+#endif
 ;
 void h_reMax(void)
 {
